@@ -3,6 +3,7 @@ package main
 import (
 	"context"
 	"fmt"
+	"github.com/ajitpratap0/GoSQLX/pkg/gosqlx"
 	"reflect"
 	"runtime/debug"
 	"strings"
@@ -219,6 +220,37 @@ func runC08(c *runCtx) {
 		if p.VerifDepth() != 0 {
 			res.fail("parser-depth-leak", fmt.Sprintf("recursion depth counter is %d after the calls returned", p.VerifDepth()),
 				map[string]any{"history": hist, "probe": e, "input": in}, nil)
+		}
+		// the pool hands every holder an object of its own, whatever releases happened before (also double releases of
+		// the objects whose Release is documented as safe to repeat)
+		if it%5 == 0 {
+			if toks := toksOf("SELECT 1; SELECT FROM; SELECT 2"); toks != nil {
+				if conv, err := parser.VerifConvert(toks); err == nil {
+					rr := parser.ParseMultiWithRecovery(conv.Tokens)
+					rr.Release()
+					rr.Release()
+				}
+			}
+			tree, _ := gosqlx.Parse("SELECT d.a FROM (SELECT a FROM t) d JOIN u ON d.a = u.a WHERE x IS NULL")
+			if tree != nil {
+				ast.ReleaseAST(tree)
+			}
+			pa, pb := parser.GetParser(), parser.GetParser()
+			if pa == pb {
+				res.fail("pool-hands-out-one-object-twice:parser", "two holders obtained the same parser from the pool at the same time", map[string]any{"history": hist}, nil)
+			}
+			pa.ApplyOptions(parser.WithStrictMode(), parser.WithDialect("mysql"))
+			if got, want := parserCall(pb, "Parse", toksOf("SELECT a FROM t LIMIT 1, 2"), -1), parserCall(parser.NewParser(), "Parse", toksOf("SELECT a FROM t LIMIT 1, 2"), -1); got != want {
+				res.fail("parser-history-dependent:pooled-pair", "a pooled parser behaves like another holder configured it", map[string]any{"history": hist}, map[string]any{"got": truncate(got, 200), "want": truncate(want, 200)})
+			}
+			parser.PutParser(pa)
+			parser.PutParser(pb)
+			ta, tb := tokenizer.GetTokenizer(), tokenizer.GetTokenizer()
+			if ta == tb {
+				res.fail("pool-hands-out-one-object-twice:tokenizer", "two holders obtained the same tokenizer from the pool at the same time", map[string]any{"history": hist}, nil)
+			}
+			tokenizer.PutTokenizer(ta)
+			tokenizer.PutTokenizer(tb)
 		}
 		// reset / release / pool: field-wise equal to a new parser
 		switch c.rng.Intn(3) {
